@@ -185,11 +185,18 @@ class TextContent(BaseModel):
         converted_text = ""
         for char in text:
             unicode_int = ord(char)
-            if unicode_int <= 255 and unicode_int != 177:
+            if unicode_int < 128:
+                # ASCII is the only range that the UTF-8 file encoding and the
+                # ansi header decode identically
                 converted_text += char
-            else:
+            elif unicode_int < 65536:
                 rtf_value = unicode_int - (0 if unicode_int < 32768 else 65536)
                 converted_text += f"\\uc1\\u{rtf_value}*"
+            else:
+                # Beyond the BMP: UTF-16 surrogate pair, each as a signed 16-bit value
+                high = 0xD800 + ((unicode_int - 0x10000) >> 10) - 65536
+                low = 0xDC00 + ((unicode_int - 0x10000) & 0x3FF) - 65536
+                converted_text += f"\\uc1\\u{high}*\\uc1\\u{low}*"
 
         text = converted_text
 
